@@ -98,10 +98,22 @@ func genAttrValue(rt *rapid.T, typ uint8) []byte {
 		return []byte{}
 	case 7:
 		return genBytesN(rt, "aggr", 8)
-	case 8, 10:
-		return genBytesN(rt, "set4", 4*rapid.IntRange(1, 6).Draw(rt, "n4"))
-	case 32:
-		return genBytesN(rt, "set12", 12*rapid.IntRange(1, 4).Draw(rt, "n12"))
+	case 8, 10, 32:
+		el := 4
+		if typ == 32 {
+			el = 12
+		}
+		if rapid.Bool().Draw(rt, "repeats") {
+			// a list over a pool of three values: the same value several times, adjacent or
+			// not (nothing in the attribute's rule forbids it, and nothing may be lost)
+			pool := [][]byte{genBytesN(rt, "el0", el), genBytesN(rt, "el1", el), genBytesN(rt, "el2", el)}
+			var v []byte
+			for i, n := 0, rapid.IntRange(2, 8).Draw(rt, "nel"); i < n; i++ {
+				v = append(v, pool[rapid.IntRange(0, 2).Draw(rt, "which")]...)
+			}
+			return v
+		}
+		return genBytesN(rt, "set", el*rapid.IntRange(1, 6).Draw(rt, "nset"))
 	case 14:
 		nhl := pick(rt, "nhl", 16, 32, 4, 0, 15, 17, 255, rapid.IntRange(0, 40).Draw(rt, "nhlr"))
 		have := nhl
